@@ -114,6 +114,28 @@ func genC06(tier string, seed uint64, emit func(string)) {
 			emit(fmt.Sprintf("bulksweep %d %d", 1<<k-40, 1<<k+40))
 		}
 	}
+	// one line far longer than any line or read buffer (a status, error or integer payload, a length or count header),
+	// at top level and as an array element, terminated or cut off by the end of the stream
+	{
+		lens := []int{4095, 4096, 4097, 65535, 65536, 65537, 70000, 131073}
+		if tier == "thorough" {
+			lens = append(lens, 262145, 1<<20-8)
+		}
+		for _, n := range lens {
+			for _, ty := range []string{"+", "-", ":", "$", "*"} {
+				fill := "a"
+				if ty != "+" && ty != "-" {
+					fill = "1"
+				}
+				for _, pre := range []string{"", "*2\r\n$3\r\nGET\r\n"} {
+					for _, tail := range []string{"", "\r\n", "\r", "\r\n+OK\r\n"} {
+						emit(fmt.Sprintf("longline %s %s %s %d %s 0", hx([]byte(pre)), hx([]byte(ty)), hx([]byte(fill)), n, hx([]byte(tail))))
+					}
+					emit(fmt.Sprintf("longline %s %s %s %d %s %d", hx([]byte(pre)), hx([]byte(ty)), hx([]byte(fill)), n, hx([]byte("")), n/2))
+				}
+			}
+		}
+	}
 	// nesting up to the 1 MiB bound of the property (4 bytes per level), with and without an innermost value
 	for _, d := range []int{65536, 131072, 262143} {
 		emit(fmt.Sprintf("deep %d -", d))
@@ -230,6 +252,23 @@ func runC06(toks []string) Result {
 			oracle = "fail:parser panicked"
 		}
 		return Result{Obs: obs, Oracle: oracle, Tags: []string{"end-" + end, "bulk", "nt"}}
+	}
+	if toks[0] == "longline" {
+		// "longline <pre> <type> <fill> <n> <tail> <cut>": pre, the type byte, n fill bytes, tail - one line far longer than
+		// any buffer, with or without its CR LF, ending with the stream; delivered whole (cut = 0) or in two reads
+		n, _ := strconv.Atoi(toks[4])
+		cut, _ := strconv.Atoi(toks[6])
+		stream := append(append(append(append([]byte{}, unhx(toks[1])...), unhx(toks[2])...), bytes.Repeat(unhx(toks[3]), n)...), unhx(toks[5])...)
+		segs := [][]byte{stream}
+		if cut > 0 && cut < len(stream) {
+			segs = [][]byte{stream[:cut], stream[cut:]}
+		}
+		obs, _, end := streamOutcome(segs, 1<<21)
+		oracle := "ok"
+		if end == "panic" {
+			oracle = "fail:parser panicked"
+		}
+		return Result{Obs: obs, Oracle: oracle, Tags: []string{"end-" + end, "longline", "nt"}}
 	}
 	if toks[0] == "deep" {
 		// nesting near the 1 MiB bound: a stack overflow is a fatal error no recover() catches, so always in a child
